@@ -2,8 +2,8 @@ import PoryProofs.ErrLoc4
 /-
 Located parser errors, part 5: top-level statements, the top-level loop, `ParseProgram`, `parseTokens`.
 -/
-namespace Pory.Parser
-open Pory
+namespace Pory.ErrLoc
+open Pory Pory.Parser
 
 section
 variable (T : List Tok) (E : Tok)
@@ -333,4 +333,4 @@ theorem parseTokens_locAt (env : Env) (toks : List Tok) (e : PErr)
         fun _ hx => absurd hx List.not_mem_nil⟩
     exact tri_error _ (sp_parseProgramM toks _ env _ 0 _ hinv) hr e rfl
 
-end Pory.Parser
+end Pory.ErrLoc
